@@ -148,6 +148,7 @@ def run(res, prop, props_v, monitor, quick_n=(110, 36), thorough_n=(1500, 60), r
         racy_sessions += [s for s in rs if s["ended"]]
     # ---- model evaluation (exact sessions)
     validated = 0
+    sched_dep = 0
     if pr["runners_ok"]:
         preds = brokerlib.eval_sessions_ocaml(exact)
         disagree = []
@@ -155,6 +156,9 @@ def run(res, prop, props_v, monitor, quick_n=(110, 36), thorough_n=(1500, 60), r
             d = brokerlib.first_diff(se["steps"], pd)
             if d is None:
                 validated += 1
+            elif d[1].startswith("schedule:"):
+                # compared up to the step where the scheduler chose; the rest of the session is the monitor's
+                sched_dep += 1
             else:
                 disagree.append((se, d))
         # a disagreement counts only if it reproduces twice with a tenfold settle time
@@ -167,7 +171,8 @@ def run(res, prop, props_v, monitor, quick_n=(110, 36), thorough_n=(1500, 60), r
                     reproduced += 1
                     continue
                 pd2 = brokerlib.eval_sessions_ocaml([o])[0]
-                if brokerlib.first_diff(o["steps"], pd2) is not None:
+                d2 = brokerlib.first_diff(o["steps"], pd2)
+                if d2 is not None and not d2[1].startswith("schedule:"):
                     reproduced += 1
             if reproduced == 2:
                 problems.append(("correspondence", se, d[0], "model and implementation disagree at step %d (%s): %s" % (d[0], se["steps"][d[0]]["op"], d[1][:600])))
@@ -235,6 +240,7 @@ def run(res, prop, props_v, monitor, quick_n=(110, 36), thorough_n=(1500, 60), r
     res.cov["evaluations"] = len(allse)
     res.cov["distinct_nontrivial"] = len(distinct)
     res.cov["traces_validated_against_impl"] = validated
+    res.cov["traces_compared_up_to_a_scheduler_choice"] = sched_dep
     res.cov["rule"] = ("sessions generated online against the real broker (built from /repo with -tags verif, booted in-process, driven by a raw "
                        "frame client; one request at a time, quiescence detected through the verif hooks): `exact` sessions are compared step by "
                        "step (frames per connection and projected snapshot) with the Coq model run by the extracted runner; `racy` sessions "
